@@ -16,6 +16,7 @@ import random
 import sys
 
 from . import common as C
+from . import ruleeval as RE
 from . import exprs as X
 
 sys.path.insert(0, C.VERIF)
@@ -88,51 +89,11 @@ def gen_tree():
 
 
 def ast_term(items):
-    """a replacement (JSON from the harness op h_rules_tast) as a Coq term of Model/RuleAst.v"""
-    def item(x):
-        k = x["k"]
-        if k == "T":
-            return "T1" if x["ne"] else "T0"
-        if k == "X":
-            return "X"
-        if k == "S":
-            return "(ITts %s %s)" % ("true" if x["cmd"] in ("spell", "pronounce") else "false", lst(x["body"]))
-        if k == "N":
-            return "(IIntent %s)" % lst(x["body"])
-        if k == "?":
-            return "(ITest %s)" % entries(x["entries"])
-        if k == "W":
-            return "(IWith %s)" % lst(x["body"])
-        if k == "V":
-            return "V"
-        if k == "+":
-            return "(IInsert %s)" % lst(x["body"])
-        if k == "L":
-            return "ITranslate"
-        return "IBad"
-
-    def part(p):
-        if p is None:
-            return "PNone"
-        if "r" in p:
-            return "(PRepl %s)" % lst(p["r"])
-        return "(PTest %s)" % entries(p["t"])
-
-    def entries(es):
-        out = "ENil"
-        for e in reversed(es):
-            out = "(ECons %s %s %s %s)" % ("true" if e["cond"] else "false", part(e["then"]), part(e["else"]), out)
-        return out
-
-    def lst(l):
-        out = "INil"
-        for x in reversed(l):
-            out = "(ICons %s %s)" % (item(x), out)
-        return out
-    return lst(items)
+    """a replacement (JSON from the harness op h_rules_tast) as a Coq term of Model/RuleAst.v (literals not numbered)"""
+    return RE.ast_term(items)
 
 
-AST_NOTATIONS = ("Notation T1 := (IText true).\nNotation T0 := (IText false).\nNotation X := IX.\nNotation V := ISetVars.\n")
+AST_NOTATIONS = RE.AST_NOTATIONS
 
 
 def unicode_files():
@@ -156,9 +117,10 @@ def gen_unicode_entries():
         ents = x.get("ok")
         if ents is None:
             raise RuntimeError("cannot read %s: %s" % (nm, x))
-        ents = [e for e in ents if e.get("char")]
+        ents = [(RE.entry_codes(e), e) for e in ents if "replace" in e and "name" not in e]
+        ents = [(cs[0], e) for cs, e in ents if cs]
         total += len(ents)
-        defs.append("Definition uf%d : list (N * items) := [\n%s\n]." % (i, ";\n".join("(%d, %s)" % (ord(e["char"][0]), ast_term(e["replace"])) for e in ents)))
+        defs.append("Definition uf%d : list (N * items) := [\n%s\n]." % (i, ";\n".join("(%d, %s)" % (c, ast_term(e["replace"])) for c, e in ents)))
     body = HEADER + "From MC Require Import Lib.Base Model.RuleAst.\n" + AST_NOTATIONS + "\n".join(defs) + \
         "\nDefinition unicode_entries : list (str * list (N * items)) := [" + "; ".join("(%s, uf%d)" % (cstr(nm), i) for i, nm in enumerate(names)) + "].\n"
     C.write_if_changed(os.path.join(C.GEN, "UnicodeEntries.v"), body)
@@ -530,7 +492,8 @@ def silent_search(res):
             if not os.path.exists(p):
                 continue
             ents = C.one_session([["h_rules_tast", p]])["res"][0].get("ok") or []
-            bad = [e["char"] for e in ents if e.get("char") and not may_be_silent(ord(e["char"][0])) and not py_speaks(e["replace"])]
+            bad = [chr(RE.entry_codes(e)[0]) for e in ents if "replace" in e and "name" not in e and RE.entry_codes(e)
+                   and not may_be_silent(RE.entry_codes(e)[0]) and not py_speaks(e["replace"])]
             for k in bad[:20]:
                 ch = k[0]
                 for style in ("ClearSpeak", "SimpleSpeak"):
@@ -553,6 +516,70 @@ def silent_search(res):
     return found
 
 
+def literals_of(ast):
+    out = set()
+    if isinstance(ast, list):
+        for x in ast:
+            out |= literals_of(x)
+    elif isinstance(ast, dict):
+        if ast.get("k") == "T" and ast.get("ne"):
+            out.add(ast.get("text", "").strip("\uF8FD\uF8FE "))
+        for v in ast.values():
+            if isinstance(v, (list, dict)):
+                out |= literals_of(v)
+    return out
+
+
+def regional_oracle(res):
+    """a regional variant that ships its own Unicode file (it includes the language's file and redefines some characters):
+    the regional definitions are the ones in force.  For every redefined character whose regional words differ from the
+    language's: the speech of `x c y` under the region differs from the speech under the bare language in at least one
+    style / verbosity"""
+    base = os.path.join(C.RULES, "Languages")
+    nv = 0
+    for lang in sorted(os.listdir(base)):
+        for region in sorted(os.listdir(os.path.join(base, lang))) if os.path.isdir(os.path.join(base, lang)) else []:
+            rfile = os.path.join(base, lang, region, "unicode.yaml")
+            if lang == "zz" or region == "SharedRules" or not os.path.exists(rfile) or not os.path.exists(os.path.join(base, lang, "unicode.yaml")):
+                continue
+            own = {}
+            for e in RE.dump(rfile):
+                if "replace" in e and "name" not in e:
+                    for c in RE.entry_codes(e):
+                        own[c] = e["replace"]
+            parent = RE.load_unicode(os.path.join(base, lang, "unicode.yaml"))
+            chars = [c for c in sorted(own) if c in parent and literals_of(own[c]) - literals_of(parent[c])]
+            cfgs = [(st, v) for st in ("ClearSpeak", "SimpleSpeak") for v in ("Terse", "Medium", "Verbose")]
+            sessions = []
+            for tag in (lang, "%s-%s" % (lang, region)):
+                ops = [["set_rules_dir", C.RULES], ["set_preference", "Language", tag]]
+                for st, v in cfgs:
+                    ops += [["set_preference", "SpeechStyle", st], ["set_preference", "Verbosity", v]]
+                    for c in chars:
+                        ops += [["set_mathml", "<math><mi>x</mi><mo>&#x%X;</mo><mi>y</mi></math>" % c], ["get_spoken_text"]]
+                sessions.append({"id": len(sessions), "ops": ops})
+            out = C.run_harness(sessions)
+            if len(out) != 2 or any(len(o.get("res") or []) != 2 + len(cfgs) * (2 + 2 * len(chars)) for o in out):
+                continue
+            for j, c in enumerate(chars):
+                same = True
+                for k in range(len(cfgs)):
+                    i = 2 + k * (2 + 2 * len(chars)) + 2 + 2 * j + 1
+                    if out[0]["res"][i] != out[1]["res"][i]:
+                        same = False
+                res.add_case(("regional", lang, region, c), nontrivial=True)
+                if same:
+                    new = sorted(literals_of(own[c]) - literals_of(parent[c]))
+                    res.violation("%s-%s redefines U+%04X (words %r) in its own Unicode file, but under every style and verbosity the speech is the same as for %s: the regional definition is not in force"
+                                  % (lang, region, c, new[:3], lang),
+                                  {"kind": "config", "config": ["speech", ["%s-%s" % (lang, region), "ClearSpeak", "Medium"]], "expr": "<mrow><mi>x</mi><mo>&#x%X;</mo><mi>y</mi></mrow>" % c,
+                                   "op": ["get_spoken_text"], "regional_words": new})
+                    nv += 1
+                    if nv >= 3:
+                        return nv
+    return nv
+
+
 def run(res):
     res.rule = ("every shipped language / region (zz test fixtures excluded) x {ClearSpeak, SimpleSpeak} x {Terse, Medium, Verbose} (quick: one seeded verbosity per "
                 "language and style), every shipped braille code, 13 regional / unknown / oddly written language names; corpus: 25 textbook expressions, 20 "
@@ -563,11 +590,12 @@ def run(res):
     generate(res)
 
     def on_broken(log):
-        return (silent_search(res) if "UnicodeEntries" in log else 0) + oracle(res) > 0
+        return (silent_search(res) if "UnicodeEntries" in log else 0) + oracle(res) + regional_oracle(res) > 0
     proved = C.check_proofs(res, "C15", ["Props/C15.vo", "Tie/C15Tie.vo"], "Props/C15.v", search=on_broken)
     known_witnesses(res)
     if proved:
         oracle(res)
+        regional_oracle(res)
     res.trusted += ["hook prefs::verif::files (the rule files the preference manager has located)",
                     "harness h_rules_tast: the dump of every Unicode replacement as a rule AST with the library's YAML parser crate (the analysis itself is Coq's speaks_items, "
                     "proved sound in Proofs/RuleAstP.v; computed items -- x, spell, pronounce, translate -- are taken to speak)",
